@@ -321,7 +321,9 @@ def implied_conditions(F, body, du, s, depth=3):
                 continue
             seen.add((l, lab[1]))
             defs = [(b, j, st) for b, j, st in body.stmts() if st['k'] == 'assign' and st['lhs']['l'] == l and not st['lhs'].get('p')]
-            if len(defs) < 2:
+            # a flag may also be defined by the result of a call: `let f = match x { Some(c) => c.is_ascii_digit(), None => false }`
+            cdefs = [(b, t) for b, t in body.calls() if t['dest']['l'] == l and not t['dest'].get('p')]
+            if len(defs) + len(cdefs) < 2:
                 continue
             keep = []
             for b, j, st in defs:
@@ -330,7 +332,15 @@ def implied_conditions(F, body, du, s, depth=3):
                 if cval in ('true', 'false') and (cval == 'true') != lab[1]:
                     continue          # this definition gives the opposite constant: not on the path
                 keep.append((b, j, st))
-            if len(keep) != 1:
+            if len(keep) + len(cdefs) != 1:
+                continue
+            if cdefs:
+                b, t = cdefs[0]
+                extra = list(dominating_conditions(F, body, du, b))
+                extra.append(({'k': 'call', 't': t, 'b': b}, ('bool', lab[1]), (b, b)))
+                for e in extra:
+                    out.append(e)
+                    nxt.append(e)
                 continue
             b, j, st = keep[0]
             extra = list(dominating_conditions(F, body, du, b))
